@@ -361,6 +361,56 @@ def _numeric_law(net, fr):
         gq = abs(law) / (1 + abs(pf - pt))
         if gq > worst:
             worst, where = gq, "pipe %s: momentum residual %r bar" % (ix, law)
+    # multi-section pipes: the law per section, with the section end pressures / temperatures of Pipe.get_internal_results and
+    # the heights interpolated linearly between the end junctions
+    from pandapipes.component_models.pipe_component import Pipe
+    for ix in net.pipe.index:
+        S = int(net.pipe.at[ix, "sections"])
+        r = net.res_pipe.loc[ix]
+        m = r.mdot_from_kg_per_s
+        if S < 2 or np.isnan(m) or abs(m) < 1e-7:
+            continue
+        try:
+            ir = Pipe.get_internal_results(net, np.array([ix]))
+        except Exception:   # noqa
+            continue
+        pin, tin = list(ir["PINIT"][:, 1]), list(ir["TINIT"][:, 1])
+        if len(pin) != S - 1:
+            continue
+        fj, tj = int(net.pipe.at[ix, "from_junction"]), int(net.pipe.at[ix, "to_junction"])
+        hf, ht = float(net.junction.at[fj, "height_m"]), float(net.junction.at[tj, "height_m"])
+        hs = [hf + (ht - hf) * k / S for k in range(S + 1)]
+        ps = [r.p_from_bar] + pin + [r.p_to_bar]
+        ts = [r.t_from_k] + tin + [r.t_to_k]
+        d = net.pipe.at[ix, "inner_diameter_mm"] / 1000
+        L = net.pipe.at[ix, "length_km"] * 1000 / S
+        k_ = net.pipe.at[ix, "k_mm"] / 1000
+        zeta = net.pipe.at[ix, "loss_coefficient"] / S
+        A = d * d * math.pi / 4
+        for q in range(S):
+            pf, pt = ps[q] + p_correction_height_air(hs[q]), ps[q + 1] + p_correction_height_air(hs[q + 1])
+            tf, to = ts[q], ts[q + 1]
+            tm = (tf + to) / 2
+            eta = float(fl.get_viscosity(tm))
+            re = abs(m) * d / (eta * A)
+            if fr == "nikuradse":
+                lam = 64 / re + (1 / (2 * math.log10(d / k_) + 1.14) ** 2 if fl.is_gas else 1 / (-2 * math.log10(k_ / (3.71 * d))) ** 2)
+            elif fr == "swamee-jain":
+                lam = 0.25 / math.log10(k_ / (3.7 * d) + 5.74 / re ** 0.9) ** 2
+            else:
+                lam = r["lambda"]
+            if fl.is_gas:
+                K = lambda p: float(fl.get_compressibility(p))      # noqa
+                rn = float(fl.get_density(tn))
+                rho = (rn * tn * pf / (tf * pn * K(pf)) + rn * tn * pt / (to * pn * K(pt))) / 2
+                pm = pf if pf == pt else 2 / 3 * (pf ** 3 - pt ** 3) / (pf ** 2 - pt ** 2)
+                law = pf - pt + rho * g * (hs[q] - hs[q + 1]) / pc - (lam * L / d + zeta) * m * abs(m) * pn * tm * K(pm) / (rn * A * A * tn * pc * (pf + pt))
+            else:
+                rho = (float(fl.get_density(tf)) + float(fl.get_density(to))) / 2
+                law = pf - pt + rho * g * (hs[q] - hs[q + 1]) / pc - (lam * L / d + zeta) * m * abs(m) / (2 * rho * A * A * pc)
+            gq = abs(law) / (1 + abs(pf - pt))
+            if gq > worst and (fr != "colebrook" or gq > 1e-4):
+                worst, where = gq, "pipe %s section %d: momentum residual %r bar" % (ix, q, law)
     # reported velocities / norm factors of single-section pipes, valves and heat exchangers
     for tbl, fc, tc in (("pipe", "from_junction", "to_junction"), ("valve", "junction", "element"),
                         ("heat_exchanger", "from_junction", "to_junction")):
